@@ -1172,6 +1172,115 @@ func checkStanzaError(c *core.Case, v Val) {
 		}
 	}
 
+	// An error inside a value that goes the encoding/xml way (a stanza struct
+	// with an error field, what Encode and the encoder handed to handlers are
+	// given): its condition and texts are siblings in a namespace that is not
+	// their parent's.  Both internal/marshal paths must write what xml.Marshal
+	// writes, as far as the error read back from it is concerned.
+	if !v.Hostile {
+		inIQ := struct {
+			XMLName xml.Name     `xml:"jabber:client iq"`
+			Type    string       `xml:"type,attr"`
+			Err     stanza.Error `xml:"error"`
+			Items   []struct {
+				XMLName xml.Name `xml:"urn:c13:items item"`
+				V       string   `xml:"v,attr"`
+			}
+		}{Type: "error", Err: e}
+		for i := 0; i < c.Index%4; i++ {
+			inIQ.Items = append(inIQ.Items, struct {
+				XMLName xml.Name `xml:"urn:c13:items item"`
+				V       string   `xml:"v,attr"`
+			}{V: fmt.Sprint(i)})
+		}
+		type back struct {
+			XMLName xml.Name     `xml:"iq"`
+			Err     stanza.Error `xml:"error"`
+			Items   []struct {
+				V string `xml:"v,attr"`
+			} `xml:"urn:c13:items item"`
+		}
+		var ref back
+		refB, rerr := xml.Marshal(inIQ)
+		if rerr == nil && xml.Unmarshal(refB, &ref) == nil {
+			for _, p := range []encPath{
+				{"marshal.TokenReader", func() ([]byte, error) { return viaTokenReader(inIQ) }},
+				{"marshal.EncodeXML", func() ([]byte, error) { return viaEncodeXML(inIQ) }},
+			} {
+				var b []byte
+				var err error
+				if c.Guard(p.name+"(stanza with error field)", func() { b, err = p.f() }) || err != nil {
+					continue
+				}
+				var got back
+				if derr := xml.Unmarshal(b, &got); derr != nil {
+					c.Violate("codec:A:Error:in-stanza:"+p.name+":decode-error", "a stanza struct with an error field written by %s does not decode: %v\n%q", p.name, derr, b)
+					continue
+				}
+				c.Count("stanza_structs_with_error_field_through_internal_marshal", 1)
+				if f := diffErr(coreErr(got.Err), coreErr(ref.Err)); f != "" || len(got.Items) != len(ref.Items) {
+					c.Violate("codec:A:Error:in-stanza:"+p.name, "a stanza struct with an error field and %d foreign children: %s and xml.Marshal decode to different values (%s; %d vs %d children)\n%q\n%q", len(inIQ.Items), p.name, f, len(got.Items), len(ref.Items), b, refB)
+				}
+			}
+		}
+	}
+
+	// An error that was received is an error like any other: decoded from a
+	// stanza of one content namespace and sent on in a stanza of the other (a
+	// server relaying between c2s and s2s streams), or written by the standard
+	// marshaller, its element belongs to the stanza it is put in.
+	if !v.Hostile {
+		if b, err := encodeTokens(e.TokenReader()); err == nil {
+			from, to := stanza.NSClient, stanza.NSServer
+			if c.Index%2 == 1 {
+				from, to = to, from
+			}
+			var rcv struct {
+				XMLName xml.Name     `xml:"iq"`
+				Err     stanza.Error `xml:"error"`
+			}
+			src := `<iq xmlns="` + from + `" type="error" id="x">` + string(b) + `</iq>`
+			var derr error
+			if !c.Guard("decode(received error)", func() { derr = xml.Unmarshal([]byte(src), &rcv) }) && derr == nil {
+				errNS := func(out []byte) (string, bool) {
+					n, perr := xmltree.ParseOne(out)
+					if perr != nil {
+						return perr.Error(), false
+					}
+					for _, ch := range n.Children() {
+						if ch.Name.Local == "error" {
+							return ch.Name.Space, true
+						}
+					}
+					return "no <error/> child", false
+				}
+				var out []byte
+				var oerr error
+				if !c.Guard("IQ.Error(received error)", func() {
+					out, oerr = encodeTokens(stanza.IQ{XMLName: xml.Name{Space: to, Local: "iq"}, Type: stanza.ErrorIQ, ID: "y"}.Error(rcv.Err))
+				}) && oerr == nil {
+					c.Count("received_errors_sent_on_in_the_other_namespace", 1)
+					if ns, ok := errNS(out); !ok || ns != to {
+						c.Violate("codec:wrap:Error:resent:namespace", "a stanza error decoded from a %s stanza and put into a %s stanza by IQ.Error has its <error/> in %q: %s", from, to, ns, out)
+						return
+					}
+				}
+				// the standard marshaller leaves the stanza unqualified: so is the error
+				wrapper := struct {
+					XMLName xml.Name     `xml:"iq"`
+					Type    string       `xml:"type,attr"`
+					Err     stanza.Error `xml:"error"`
+				}{Type: "error", Err: rcv.Err}
+				if !c.Guard("xml.Marshal(received error)", func() { out, oerr = xml.Marshal(wrapper) }) && oerr == nil {
+					if ns, ok := errNS(out); !ok || ns != "" {
+						c.Violate("codec:wrap:Error:resent:namespace", "a stanza error decoded from a %s stanza and written by xml.Marshal inside an unqualified <iq/> has its <error/> in %q: %s", from, ns, out)
+						return
+					}
+				}
+			}
+		}
+	}
+
 	// Encoding is a read-only operation: the value (its Text map is shared by
 	// every copy of it) is what it was before the six encoders ran, ...
 	textChanged := func() string {
@@ -1416,7 +1525,7 @@ func Prop() *core.Prop {
 		"echoed_payload_error_checks", "helper_payload_variant_checks", "result_payload_starting_with_non_element",
 		"cross_decoded_outputs", "cross_decoded_outputs_with_language", "qualified_attribute_checks", "snapshot_decoded_copy_kept",
 		"concurrent_decode_scenarios", "concurrent_decodes",
-		"stanza_errors_unchanged_by_encoding", "stanza_errors_encoded_by_several_goroutines_at_once", "snapshot_checks", "snapshot_text_map_mutated", "snapshot_reused_decode_target", "snapshot_stanza_helpers", "snapshot_stream_error"}
+		"stanza_errors_unchanged_by_encoding", "received_errors_sent_on_in_the_other_namespace", "stanza_structs_with_error_field_through_internal_marshal", "stanza_errors_encoded_by_several_goroutines_at_once", "snapshot_checks", "snapshot_text_map_mutated", "snapshot_reused_decode_target", "snapshot_stanza_helpers", "snapshot_stream_error"}
 	for _, k := range []string{"iq", "message", "presence"} {
 		for _, n := range []string{"none", "client", "server"} {
 			req = append(req, k+"_ns_"+n)
